@@ -338,7 +338,7 @@ def main():
             kid = predicates.known_finding(pid, name, line + ((' #' + info[k]) if k in info else ''), e, s, known_ids)
             if kid: known_hit.setdefault(kid, (line, e, s)); continue
             minimal = None
-            if shrunk_done < 1 and replay is None and not kid:
+            if shrunk_done < 1 and replay is None and not kid and e.strip() != 'timeout':
                 # shrink the first failing case of this stream to a minimal one that still violates the property
                 shrunk_done += 1
                 try:
